@@ -142,7 +142,7 @@ def fresh_tree(doc_key: str, meta: str, hk: str, scratch: Path) -> dict:
 def validate_traces(events: list[dict], scratch_dir: Path):
     path = scratch_dir / "fs.ndjson"
     path.write_text("\n".join(json.dumps(e) for e in events) + "\n")
-    cfg = tlc.write_cfg(scratch_dir / "fstrace.cfg", {"MaxCmds": 99, "MaxTouches": 99, "Docs": set(DOCS), "HookKinds": set(HOOKS),
+    cfg = tlc.write_cfg(scratch_dir / "fstrace.cfg", {"CrashPoints": set(), "MaxCmds": 99, "MaxTouches": 99, "Docs": set(DOCS), "HookKinds": set(HOOKS),
                                                      "Touches": {"u_top", "u_flav", "u_pkg", "u_models", "u_api", "sib"}},
                         ["NoClobber", "Converges", "NoStale", "ExitLaw", "RejectedWritesNothing"], spec="TSpec", post="Post")
     res = tlc.run_tlc("FsTrace.tla", cfg, workers=1, env={"TRACE_FILE": str(path)}, timeout=1200)
